@@ -205,6 +205,9 @@ type client struct {
 	cleanWillFlag bool // whether to remove will Msg
 
 	disconnect *packets.Disconnect
+	// errDisconnect is the DISCONNECT packet to send before the connection is closed because of an error.
+	// It is set by setError before client.close is closed.
+	errDisconnect *packets.Disconnect
 
 	topicAliasManager TopicAliasManager
 	version           packets.Version
@@ -280,19 +283,15 @@ func (client *client) setError(err error) {
 			if client.version == packets.Version5 {
 				if code, ok := err.(*codes.Error); ok {
 					if client.IsConnected() {
-						// send Disconnect.
-						// Do not block here: if the out channel is full because the write loop is stuck (the peer does not
-						// read), nobody else can set the error and close the client while errOnce is held.
-						select {
-						case client.out <- &packets.Disconnect{
+						// The write loop sends it when client.close is closed. Do not queue it into client.out: that
+						// blocks when the channel is full, and nobody else can close the client while errOnce is held.
+						client.errDisconnect = &packets.Disconnect{
 							Version: packets.Version5,
 							Code:    code.Code,
 							Properties: &packets.Properties{
 								ReasonString: code.ReasonString,
 								User:         kvsToProperties(code.UserProperties),
 							},
-						}:
-						default:
 						}
 					}
 				}
@@ -314,7 +313,8 @@ func (client *client) writeLoop() {
 	for {
 		select {
 		case <-client.close:
-			// setError and sendErrConnack queue the DISCONNECT/CONNACK packet before client.close is closed, do not lose it.
+			// sendErrConnack queues the CONNACK packet before client.close is closed, and setError leaves the
+			// DISCONNECT packet in client.errDisconnect: do not lose them.
 		flush:
 			for {
 				select {
@@ -327,6 +327,11 @@ func (client *client) writeLoop() {
 					}
 				default:
 					break flush
+				}
+			}
+			if client.errDisconnect != nil {
+				if err = client.writePacket(client.errDisconnect); err == nil {
+					srv.statsManager.packetSent(client.errDisconnect, client.opts.ClientID)
 				}
 			}
 			// the connection is dead for the broker, do not leave it open until the client closes it.
